@@ -80,6 +80,16 @@ pub(crate) fn remove_all<Fd: AsFd>(dirfd: Fd, name: &Path) -> Result<(), Error> 
         })?;
     }
 
+    // "." and ".." name a directory other than an entry of dirfd: the kernel
+    // refuses to unlink them, and opening ".." to empty it would walk out of
+    // the directory we were asked to operate in.
+    if matches!(name.as_os_str().as_bytes(), b"." | b"..") {
+        Err(ErrorImpl::InvalidArgument {
+            name: "path".into(),
+            description: "remove_all cannot remove '.' or '..'".into(),
+        })?;
+    }
+
     // Fast path -- try to remove it with unlink/rmdir.
     if remove_inode(dirfd, name).ignore_enoent().is_ok() {
         return Ok(());
